@@ -33,7 +33,11 @@ macro_rules! pe_case {
 // N symbolic bytes with a symbolic or constant span cost 220-330 s for ONE byte and do
 // not finish in 400 s for two (the substring searcher `memchr` runs on a slice whose
 // length is a difference of pointer VALUES, which CBMC does not fold); ten literal cases
-// in one obligation do not finish in 300 s either, one case takes 3 s.
+// in one obligation do not finish in 300 s either, one case takes 3-15 s - PROVIDED the
+// span does not start at byte 0 and its line is not empty: the 47 cases where the real
+// function searches an EMPTY haystack (`input[..0].match_indices`, `"".find`) give no
+// result in 200 s.  Those are generated below all the same but are NOT REGISTERED in
+// C05.toml (37 of 84 are).
 macro_rules! pe_harness {
     ($name:ident, $($case:tt)*) => {
         #[kani::proof]
